@@ -13,12 +13,17 @@ import itertools
 from .. import taint
 from ..build import AnalysisBroken
 
-# result is a public status by the property's own wording
+# functions whose *result* is public although it is computed from secrets: None = in every caller, otherwise only in the
+# named callers (elsewhere the result stays secret, so branching on it is reported).
 DECLASS_RET = {
-    "crypto_verify_16", "crypto_verify_32", "crypto_verify_64", "sodium_memcmp", "sodium_is_zero", "sodium_compare",
-    "_crypto_scalarmult_ed25519_is_inf",                      # identity-result error
-    "crypto_scalarmult_curve25519", "crypto_scalarmult",      # all-zero shared point => failure status
-    "crypto_onetimeauth_poly1305_verify", "crypto_onetimeauth_verify",
+    "crypto_verify_16": None, "crypto_verify_32": None, "crypto_verify_64": None, "sodium_memcmp": None, "sodium_compare": None,
+    # "is the encoded result / the scalar all-zero?" is the documented error status of these four scalar multiplications
+    # only; anywhere else (e.g. the is-zero tests inside the square-root / inversion helpers) it stays secret
+    "sodium_is_zero": {"_crypto_scalarmult_ed25519", "_crypto_scalarmult_ed25519_base",
+                       "crypto_scalarmult_ristretto255", "crypto_scalarmult_ristretto255_base"},
+    "_crypto_scalarmult_ed25519_is_inf": None,                # identity-result error
+    "crypto_scalarmult_curve25519": None, "crypto_scalarmult": None,      # all-zero shared point => failure status
+    "crypto_onetimeauth_poly1305_verify": None, "crypto_onetimeauth_verify": None,
 }
 
 # (entry, secret pointee parameter indices, secret value parameter indices)
